@@ -140,3 +140,63 @@ def reader_ranges(ctx, s, fn):
             if lo is not None and hi is not None:
                 out.add((lo, hi))
     return out
+
+
+def reader_width_agreement(ctx, s, fns, what="event"):
+    """S-SIBLING: every reader of one position of the packed bytes reads the same number of bytes there.  Fixed-width
+    reads (slices of constant width) in the given functions are grouped by their start position, written relative to the
+    packed bytes (so `self.0[144 + tags_len ..]` in an accessor and `input[144 + tags_len ..]` in delineate are the same
+    position); a position read with two different widths means a reader disagrees with the layout the others (and the
+    writers) use."""
+    from ..sym import strip_sites, walk
+    groups = {}
+    for fn in fns:
+        an = ctx.E.an(fn)
+        P = ctx.E.prover(fn)
+        ctx.functions.add(fn.path)
+        vals = list(an.stmt_val.values()) + [i.get("value") for i in an.term.values() if i.get("value")] + \
+            [a for i in an.term.values() if i.get("args") for a in i["args"]]
+        seen = set()
+        for v in vals:
+            if v is None:
+                continue
+            for x in find_values(v, lambda y: y[0] == "slice"):
+                k = strip_sites(x)
+                if k in seen:
+                    continue
+                seen.add(k)
+                base = x[1]
+                w = P.lin(("bin", "Sub", x[3], x[2]))
+                if w[1]:
+                    continue            # not a fixed-width read
+
+                def rel(y):
+                    if y == base:
+                        return ("BYTES",)
+                    if not isinstance(y, tuple):
+                        return y
+                    return tuple(rel(z) for z in y)
+                key = repr(rel(strip_sites(x[2])))
+                site = None
+                groups.setdefault(key, {}).setdefault(w[0], []).append((fn, x))
+    n = 0
+    for key, widths in sorted(groups.items()):
+        if len(widths) < 2:
+            n += 1
+            continue
+        ws = sorted(widths)
+        # the width most readers use is taken as the layout's; report the odd one(s) out
+        major = max(ws, key=lambda w_: len(widths[w_]))
+        for w_ in ws:
+            if w_ == major:
+                continue
+            for fn, x in widths[w_]:
+                s.add("S-SIBLING", fn, "field-width", "%s@%s" % (what, s.show(x[2], fn)[:40]), fn.sp, VIOLATION,
+                      "this position of the packed %s is read as %d bytes here but as %d bytes by %s: one reader disagrees with the "
+                      "layout (values above the narrower range are misread)" %
+                      (what, w_, major, ", ".join(sorted({f.nice.split("::")[-1] for f, _ in widths[major]}))))
+    anchor = fns[0]
+    if not any(len(w) > 1 for w in groups.values()):
+        s.add("S-SIBLING", anchor, "field-width", what, anchor.sp, PROVED,
+              "%d positions of the packed %s are each read with one width by all their readers" % (len(groups), what))
+    ctx.instances["S-SIBLING.%s reader positions" % what] = len(groups)
